@@ -124,7 +124,7 @@ Inductive enc_body_param : val -> list byte -> Prop :=
 | bp_some p w l ws : enc_param_pair p w -> enc_param_more l ws -> enc_body_param (VSome (VList (p :: l))) ([40] ++ w ++ ws ++ [41]).
 
 (* body-fld-enc = (DQUOTE ("7BIT" / "8BIT" / "BINARY" / "BASE64" / "QUOTED-PRINTABLE") DQUOTE) / string.  Any other
-   string is reported verbatim; not covered here: a quoted string that merely starts with one of the five names *)
+   string is reported verbatim, also one that merely starts with one of the five names *)
 Definition known_encodings : list (string * string) :=
   [("7BIT", "ContentEncoding::SevenBit"); ("8BIT", "ContentEncoding::EightBit"); ("BINARY", "ContentEncoding::Binary");
    ("BASE64", "ContentEncoding::Base64"); ("QUOTED-PRINTABLE", "ContentEncoding::QuotedPrintable")]%string.
@@ -133,6 +133,8 @@ Inductive enc_body_enc : val -> list byte -> Prop :=
 | be_other_quoted s : forallb rfc_QUOTED_PLAIN s = true -> utf8_valid s = true ->
     forallb (fun Kn : string * string => nocase_mismatch (bs (fst Kn)) (s ++ [34])) known_encodings = true ->
     enc_body_enc (VCon "ContentEncoding::Other" [VBytes s]) ([34] ++ s ++ [34])
+| be_other_quoted_longer K n k t : In (K, n) known_encodings -> kw K k -> t <> [] -> quoted_body t -> utf8_valid (k ++ t) = true ->
+    enc_body_enc (VCon "ContentEncoding::Other" [VBytes (k ++ t)]) ([34] ++ (k ++ t) ++ [34])   (* a longer name that starts with a known one *)
 | be_other_literal s w : enc_literal s w -> utf8_valid s = true -> enc_body_enc (VCon "ContentEncoding::Other" [VBytes s]) w.
 
 (* body-fields = body-fld-param SP body-fld-id SP body-fld-desc SP body-fld-enc SP body-fld-octets *)
